@@ -154,3 +154,118 @@ PROPS["C15"] = {
                 "str::to_lowercase enters trim_protocol only through ASCII letters (stream lowercase-scan)"],
     "assumptions": ["std::path and str primitives behave as Base/PathLex.v, Base/Str.v", "paths are valid UTF-8"],
 }
+
+
+# ---------------------------------------------------------------------------------------------
+import itertools, re, os
+from rvlib import hx
+
+
+def envspec(env):
+    return ";".join("%s=%s" % (k, hx(v)) for k, v in sorted(env.items()) if v is not None) or "-"
+
+
+ENV_VALUES = {"unset": None, "empty": "", "plain": "val", "sep": "x/y", "abs": "/abs/x"}
+
+
+def c17_envs(tier):
+    envs = []
+    homes = [None, "", "/home/u", "rel/h", "/h$V"] if tier == "quick" else [None, "", "/home/u", "rel/h", "/h$V", "/", "/home/ü"]
+    vs = list(ENV_VALUES.values())
+    for h in homes:
+        for v in vs:
+            for w in ([None, "w"] if tier == "quick" else vs):
+                envs.append({"HOME": h, "V": v, "W": w})
+    return envs
+
+
+NAME_RE = r"[^${}/~]+"
+
+
+def c17_in_domain(l, out):
+    """inside the statement's specified domain: plain text, ~ forms, $NAME / ${NAME} with a bare name
+    ending at '$', '/' or the end, or one of the listed failures"""
+    f = l.split("\t")
+    p = bytes.fromhex(f[2]).decode()
+    if p.count("~") > 1:
+        return True
+    if p.count("~") == 1 and not (p == "~" or p.startswith("~/")):
+        return True
+    body = p[1:] if p.startswith("~") else p
+    for comp in body.split("/"):
+        if "{" in comp.replace("${", "") or "}" in re.sub(r"\$\{" + NAME_RE + r"\}", "", comp):
+            # stray braces: only the empty-name failure is specified
+            if re.search(r"\$(\$|\}|$|\{\})", comp) and not re.search(r"^[^$]*\$[^$}{]", comp):
+                continue
+            return False
+        if not re.fullmatch(r"([^$]*|\$\{" + NAME_RE + r"\}|\$" + NAME_RE + r"(?=\$|$))*\$?", comp):
+            return False
+    return True
+
+
+def c17_streams(tier, rng, ctx):
+    toks = ["a", "~", "/", "$V", "${V}", "$W", "$", "{", "}", "é", "${W}b", "."]
+    n = 4 if tier == "quick" else 5
+    templates = set()
+    for d in range(0, n + 1):
+        for t in itertools.product(toks, repeat=d):
+            templates.add("".join(t))
+    templates = sorted(templates)
+    if tier == "quick":
+        templates = templates[:0] + rng.sample(templates, 6000) + ["~", "~/", "~/a", "a$", "$", "${}", "$V.txt", "foo/$V/bar", "~/~", "a/~", "~a", "${V", "$V}", "$$", "~//a"]
+    sts = []
+    for i, env in enumerate(c17_envs(tier)):
+        es = envspec(env)
+        lines = ["\t".join(["expand", es, hx(t)]) for t in templates]
+        impl_env = {"HOME": env["HOME"], "V": env["V"], "W": env["W"]}
+        sts.append(Stream("expand-env%02d" % i, "mirror", lines, judge=c17_in_domain, impl_env=impl_env,
+                          nontrivial=lambda l, o: ("24" in l.split("\t")[2] or "7e" in l.split("\t")[2]),
+                          rule="env %s: every template of <= %d tokens from %s (own process)" % (es, n, " ".join(toks))))
+    return sts
+
+
+PROPS["C17"] = {
+    "streams": c17_streams,
+    "rule": "environments {HOME, V, W} x {unset, empty, plain, with '/', absolute, ...}, each in its own harness process, x templates of tokens "
+            "{lit, ~, /, $V, ${V}, $W, $, {, }, multi-byte}; non-trivial = the template contains '~' or '$'; distinct = distinct (environment, template)",
+    "trusted": ["process environment as a finite map; std::env::var reports NotPresent for an unset name"],
+    "assumptions": ["environment = finite map string -> string (DESIGN §4.9)",
+                    "components combine with PathBuf::push semantics (an absolute value replaces what precedes it): pinned by the crate's own test /foo/${HOME}"],
+}
+
+
+def c05_streams(tier, rng, ctx):
+    alpha = ["/", ".", "~", "$", ":", "a", "é"]
+    n = 5 if tier == "quick" else 6
+    strs = list(all_strings(alpha, n))
+    if tier == "quick":
+        strs = list(all_strings(alpha, 4)) + rng.sample(strs, 8000)
+    extra = ["file://a", "FILE:///a/b", "http://x/../y", "ftp://", "https://é", "file:/a", "a//b", "~/a/..", "~/../..", "$V/x", "${V}/../y", "x/$V",
+             "../../../..", "./.", "a/./../b/", "////", "..", "../a", "a/../../b"]
+    strs += extra
+    base = os.path.join(ctx["work"], "..", "..", "sb", "c05")
+    base = os.path.normpath(base)
+    cwds = ["/", "/a", "/a/b", "/a/b/é"]
+    sts = []
+    homes = ["/home/u", None, "/a/b"] if tier == "quick" else ["/home/u", None, "/a/b", "", "rel"]
+    for hi, home in enumerate(homes):
+        env = {"HOME": home, "V": "/abs/x" if hi == 0 else "v"}
+        es = envspec(env)
+        impl_env = {"HOME": home, "V": env["V"], "W": None}
+        lm = ["\t".join(["abs_m", es, hx(c), hx(s)]) for c in cwds for s in strs]
+        sts.append(Stream("abs-memfs-h%d" % hi, "mirror", lm, judge=lambda l, o: True, impl_env=impl_env, exhaustive=True,
+                          nontrivial=lambda l, o: o.startswith("S:") and o[2:] != l.split("\t")[3],
+                          rule="Memfs::abs vs mirror: strings over %s x cwds %s, HOME=%r" % ("".join(alpha), cwds, home)))
+        ls = ["\t".join(["abs_s", es, hx(base + (c if c != "/" else "")), hx(s)]) for c in cwds for s in rng.sample(strs, min(len(strs), 3000))]
+        sts.append(Stream("abs-stdfs-h%d" % hi, "mirror", ls, judge=lambda l, o: True, impl_env=impl_env,
+                          rule="Stdfs::abs (process cwd set inside a sandbox) vs the same mirror"))
+    return sts
+
+
+PROPS["C05"] = {
+    "streams": c05_streams,
+    "rule": "strings over {/ . ~ $ : a é} up to the tier's length x cwds of a depth-3 tree x HOME values, on Memfs and on Stdfs (real process cwd in a sandbox); "
+            "non-trivial = abs succeeds and changes the string; distinct = distinct (env, cwd, path)",
+    "trusted": ["Base/PathLex.v model of std::path; process environment as a finite map; std::env::current_dir returns the directory set by set_current_dir"],
+    "assumptions": ["cwd is a clean absolute path (Memfs: invariant of set_cwd; Stdfs: the kernel's getcwd)", "paths and environment values are valid UTF-8"],
+}
